@@ -184,6 +184,7 @@ func runC07(args []string) {
 		nv = 6
 		nrandom = 40
 	}
+	pickHist = func(k string) { r.Hist(k) }
 	corpus, err := buildCorpus(r, corpusCfg{Opts: []Opts{{}}, Random: nrandom, Name: "c07"})
 	if err != nil {
 		fatalSetup(r, err)
@@ -201,7 +202,7 @@ func runC07(args []string) {
 		}
 		vg := codec.NewVG(t.Ctx, r.Seed)
 		rng := rand.New(rand.NewSource(r.Seed*31 + int64(len(t.Label))*131))
-		evs := pickRich(t, encodeValues(ch, t, vg.Records(t.Def, 12)), nv)
+		evs := pickRich(t, encodeValues(ch, t, vg.RecordsRich(t.Def, 12)), nv)
 		var cs []corruption
 		for i, ev := range evs {
 			if len(ev.B) == 0 {
